@@ -927,6 +927,10 @@ where
                     return Err(ActorErr::Cancelled);
                 }
             }
+        } else {
+            // A signaled actor did not shut down cleanly: report it like every other kill
+            // path, without handing its (possibly half-updated) state to the supervisor.
+            return Err(ActorErr::Cancelled);
         }
 
         Ok(exit_reason)
